@@ -48,7 +48,7 @@ def run(tier, seed, started):
     coverage = {
         'evaluations': c['executions'],
         'distinct_nontrivial': len(res.sets.get('schedules', ())),
-        'rule': ('13 scenarios (C07 family + queries before / during / after the events) x every '
+        'rule': ('16 scenarios (C07 family + queries before / during / after the events) x every '
                  'choice vector with total deviation cost <= bound; distinct = (scenario, vector)'),
         'deviation_bound_completed': 1 if tier == 'quick' else 2,
         'choice_points': c['choice_points'], 'queries_judged_at_quiescence': c['queries_judged'],
